@@ -16,6 +16,7 @@
 //	func F(..) { B }  (listed) -> func F(..) { sim.Yield("F#entry"); B }
 //	time.AfterFunc(d, f)       -> time.AfterFunc(d, sim.Wrap("site", f))
 //	exec.Command(  (expect.go) -> simexec.Command(
+//	atomic.StoreX/SwapX/CompareAndSwapX/AddX(..) (stmt) -> <stmt>; sim.Yield("site")
 //
 // Exit status 2 = cannot instrument (never a violation).
 package main
@@ -365,6 +366,10 @@ func (r *fileRW) stmt(s ast.Stmt, at token.Pos) {
 			if r.lockCall(call, at, s.End()) {
 				return
 			}
+			if r.atomicWrite(call) {
+				// an atomic store publishes something: others may run before the next statement
+				r.insert(s.End(), fmt.Sprintf("; sim.Yield(%q)", r.site("atomic")))
+			}
 			if id, ok := call.Fun.(*ast.Ident); ok && id.Name == "close" && len(call.Args) == 1 {
 				if _, isBuiltin := r.info.Uses[id].(*types.Builtin); isBuiltin {
 					site := r.site("chan")
@@ -391,6 +396,9 @@ func (r *fileRW) stmt(s ast.Stmt, at token.Pos) {
 	case *ast.AssignStmt:
 		r.expr(s)
 		if len(s.Rhs) == 1 {
+			if call, ok := s.Rhs[0].(*ast.CallExpr); ok && r.atomicWrite(call) {
+				r.insert(s.End(), fmt.Sprintf("; sim.Yield(%q)", r.site("atomic")))
+			}
 			if u, ok := s.Rhs[0].(*ast.UnaryExpr); ok && u.Op == token.ARROW {
 				site := r.site("chan")
 				r.insert(at, fmt.Sprintf("sim.Yield(%q); ", site))
@@ -586,6 +594,28 @@ func (r *fileRW) lockCall(call *ast.CallExpr, at, end token.Pos) bool {
 		}
 		r.insert(end, fmt.Sprintf("; sim.Yield(%q)", r.site("unlock")))
 		return true
+	}
+	return false
+}
+
+// atomicWrite: a call of a sync/atomic function that stores (Store*, Swap*,
+// CompareAndSwap*, Add*), or of such a method of an atomic.Value / atomic.Pointer.
+func (r *fileRW) atomicWrite(call *ast.CallExpr) bool {
+	sel, ok := call.Fun.(*ast.SelectorExpr)
+	if !ok {
+		return false
+	}
+	name := sel.Sel.Name
+	if !(strings.HasPrefix(name, "Store") || strings.HasPrefix(name, "Swap") || strings.HasPrefix(name, "CompareAndSwap") || strings.HasPrefix(name, "Add")) {
+		return false
+	}
+	if id, ok := sel.X.(*ast.Ident); ok {
+		if pn, ok := r.info.Uses[id].(*types.PkgName); ok {
+			return pn.Imported().Path() == "sync/atomic"
+		}
+	}
+	if t := r.info.TypeOf(sel.X); t != nil {
+		return strings.Contains(t.String(), "sync/atomic.")
 	}
 	return false
 }
